@@ -17,7 +17,7 @@ const wsPkg = "github.com/gorilla/websocket"
 type wsMsg struct {
 	typ       int
 	data      *Blob
-	truncated bool // the frame is cut off: Read delivers nothing and fails
+	truncated bool // the frame is cut off: Read delivers the bytes that arrived, then fails
 	partial   bool // only the beginning arrived: Read blocks until the connection goes away, then fails
 }
 
@@ -133,7 +133,12 @@ type wsReader struct {
 	end  *WSEnd
 	msg  wsMsg
 	done bool
+	// a cut-off message first delivers the bytes that did arrive (the beginning of a JSON
+	// document), then fails: code that keeps what it read before the error sees that prefix
+	gavePrefix bool
 }
+
+var cutOffPrefix = []byte(`{"jsonrpc":"2.0","resu`)
 
 func (g *G) wsNextReader(e *WSEnd) Value {
 	r := g.run
@@ -339,6 +344,13 @@ func init() {
 	})
 	reg("(*"+wsPkg+".messageReader).Read", func(g *G, fr *Frame, fn *ssa.Function, a []Value) Value {
 		rd := (*a[0].(*Value)).(*wsReader)
+		if (rd.msg.partial || rd.msg.truncated) && !rd.gavePrefix {
+			rd.gavePrefix = true
+			if sl, isSlice := a[1].(Slice); !isSlice || len(sl) >= len(cutOffPrefix) {
+				n, _ := g.deposit(a[1], blobBytes(cutOffPrefix))
+				return Tuple{n, Iface{}}
+			}
+		}
 		if rd.msg.partial {
 			e := rd.end
 			g.schedPoint(&Op{desc: "ws.read inside a partial message " + e.String(), obj: e, enabled: func() bool { return e.down || e.closed }})
